@@ -27,11 +27,11 @@ MIX = [('general', 4), ('contention', 2), ('interrupt', 2), ('groups', 1), ('buf
 def phases(tier):
     if tier == 'quick':
         return [Search('hypothesis-histories', lambda: e1gen.cases(40), 1500, shards=4, tag='histories'),
-                Search('device-models', lambda: e3gen.specs(MIX), 100, shards=4, tag='models'),
+                Search('device-models', lambda: e3gen.specs(MIX, noisy_p=0.5), 250, shards=4, tag='models'),
                 Machine('stateful-machine', envmachine.env_machine(('C01',), summarise), 250, 40, shards=4),
                 Search('float-noise-histories', lambda: e1gen.noise_cases(10), 1500, shards=4, tag='noise')]
     return [Search('hypothesis-histories', lambda: e1gen.cases(80), 3000, shards=16, tag='histories'),
-            Search('device-models', lambda: e3gen.specs(MIX), 800, shards=16, tag='models'),
+            Search('device-models', lambda: e3gen.specs(MIX, noisy_p=0.5), 1500, shards=16, tag='models'),
             Machine('stateful-machine', envmachine.env_machine(('C01',), summarise), 1500, 80, shards=16),
             Search('float-noise-histories', lambda: e1gen.noise_cases(16), 6000, shards=16, tag='noise')]
 
@@ -49,7 +49,8 @@ def run_case(case, ctx):
         # (b) the same validity predicate on every dispatch of a generated multi-device model
         mon = linefuzz.run_spec(case, ('head',))
         ties = mon.c['prio_ties']
-        return {'nontrivial': ties > 0 and mon.c['events'] > 30, 'classes': ['model-run'] + (['model-priority-tie'] if ties else []),
+        return {'nontrivial': ties > 0 and mon.c['events'] > 30,
+                'classes': ['model-run'] + (['model-priority-tie'] if ties else []) + (['model-decimal-times'] if 'noisy' in case.get('profile', '') else []),
                 'counters': {'dispatches': mon.c['events'], 'prio_ties': ties}}
     return summarise(envmachine.run(case, ('C01',)))
 
